@@ -594,6 +594,23 @@ func runC20(w *World, r *Report) {
 				}
 			}
 			r.Check(okg, "C20.gates", "graph.compile gate: step limit rejected in DAG mode", gcompile.Pos(), "if r.dag && maxRunSteps > 0 -> error, on every path to success", det+": a Workflow (always DAG) compiled with WithMaxRunSteps is accepted and the limit silently ignored")
+			// a limit the run loop refuses on every call (maxSteps < 1) is refused when it is given: a negative compile-time
+			// limit is an error of Compile, not of each run
+			negGate := false
+			instrs(gcompile, func(in ssa.Instruction) {
+				iff, ok := in.(*ssa.If)
+				if !ok {
+					return
+				}
+				op, x, y, ok := asCmp(iff.Cond)
+				if !ok || !isLoadOfField(x, fMax) || !isConstN(y, 0) || op != token.LSS {
+					return
+				}
+				if reach, _ := pathFromBlock(pathQuery{fn: gcompile, goal: isSuccess}, iff.Block().Succs[0]); !reach {
+					negGate = true
+				}
+			})
+			r.Check(negGate, "C20.gates", "graph.compile gate: a negative step limit is rejected", gcompile.Pos(), "if maxRunSteps < 0 -> error", "Compile(ctx, WithMaxRunSteps(-3)) succeeds and returns a runnable every run of which fails 'max run steps limit must be at least 1': an invalid option value is accepted at Compile")
 		}
 		// validateDAG counts len(predecessors) and decrements once per edge / branch target: the predecessor tables must
 		// hold one entry per edge (a multiset) — each loop over the edge tables appends unconditionally
